@@ -275,6 +275,15 @@ impl PacketSender {
     }
 }
 
+#[cfg(uflow_verif)]
+impl PacketSender {
+    /// (base_id, next_id, alloc, max_alloc, total_size, queued packets, window entries present)
+    pub fn verif_probe(&self) -> (u32, u32, usize, usize, usize, usize, usize) {
+        (self.base_id, self.next_id, self.alloc, self.max_alloc, self.total_size, self.packet_send_queue.len(),
+         self.window.iter().filter(|e| e.is_some()).count())
+    }
+}
+
 #[cfg(test)]
 mod tests {
     use super::*;
